@@ -573,6 +573,15 @@ func (da *DistributedAllocator) loadAllocations(ctx context.Context) error {
 				// Log but continue - might be a conflict
 				continue
 			}
+
+			// The epoch counter starts again with this process. Stamp the record
+			// with the generation the address was just restored at: the store
+			// cleanup compares stored epochs with the running counter and would
+			// otherwise keep the record after the lease has expired here.
+			if alloc.Epoch != currentEpoch {
+				alloc.Epoch = currentEpoch
+				da.saveAllocation(ctx, &alloc)
+			}
 		} else {
 			// Session mode: set allocation directly from store
 			if err := da.allocator.SetAllocation(alloc.SubscriberID, prefix); err != nil {
